@@ -49,7 +49,12 @@ KeyUpdate ==
   /\ ops' = Append(ops, [op |-> "keyupdate", rec |-> 0])
   /\ UNCHANGED <<w, recs, delivered, narr>>
 
-Fresh(e, s) == /\ (s <= latest[e] => latest[e] - s < w)
+\* the window the replay detector really uses: the configured size rounded up to whole 64-bit words (the "fix:" commit
+\* that works around the detector's bitmap losing the upper bits of a partially used word; a configured window of
+\* 33..63, 97..127, ... let records inside the window be accepted twice).  The properties below speak about the
+\* CONFIGURED window.
+Eff(x) == ((x + 63) \div 64) * 64
+Fresh(e, s) == /\ (s <= latest[e] => latest[e] - s < Eff(w))
                /\ s \notin seen[e]
 
 Arrive(i) ==
@@ -62,7 +67,7 @@ Arrive(i) ==
          wipe == WipeOnGrow /\ e \notin known /\ known # {}
          lat == IF wipe THEN [x \in Epochs |-> -1] ELSE latest
          sn  == IF wipe THEN [x \in Epochs |-> {}] ELSE seen
-         fresh == (s <= lat[e] => lat[e] - s < w) /\ s \notin sn[e] IN
+         fresh == (s <= lat[e] => lat[e] - s < Eff(w)) /\ s \notin sn[e] IN
      /\ known' = known \cup {e}
      /\ IF fresh
         THEN /\ delivered' = Append(delivered, i)
